@@ -102,7 +102,9 @@ class E2E(Harness):
 
     def build_stream(self, lens):
         items, pk = [], []
+        skip = self.job["params"].get("skip", 0)
         for i, Lb in enumerate(lens):
+            items += [z3.BitVec(f"x{i}_{j}", 8) for j in range(skip)]          # record prefix (skip_header_bytes), arbitrary bytes
             bs = [z3.BitVec(f"p{i}_{j}", 8) for j in range(Lb)]
             bs[4] = (Lb - 7) >> 8
             bs[5] = (Lb - 7) & 0xFF
@@ -113,7 +115,14 @@ class E2E(Harness):
 
     def collect(self, ctx, stream, parse_bad, yield_unrec, n):
         """the items the library delivers for the stream (overridden by harnesses that observe them through another entry point)"""
-        gen = self.defn.packet_generator(stream, parse_bad_pkts=parse_bad, yield_unrecognized_packet_errors=yield_unrec)
+        p = self.job["params"]
+        if p.get("via") == "direct":
+            # the public parse_ccsds_packet called directly on each framed packet (no generator): every packet parsed or its error raised
+            return self.collect_direct(ctx, stream)
+        kw = {"root_container_name": templates.root_of(p["template"])} if p.get("root_mode") == "gen" else {}
+        kw.update(source_kwargs(p))
+        src = bv.SymFileBV(stream) if p.get("source") == "file" else stream
+        gen = self.defn.packet_generator(src, parse_bad_pkts=parse_bad, yield_unrecognized_packet_errors=yield_unrec, **kw)
         yields, end = [], "stop"
         try:
             for y in gen:
@@ -123,6 +132,23 @@ class E2E(Harness):
                     break
         except Exception as e:   # noqa: BLE001 - library outcome
             end = "exc:" + type(e).__name__
+        return yields, end
+
+    def collect_direct(self, ctx, stream):
+        lib, p = self.lib, self.job["params"]
+        kw = {"root_container_name": templates.root_of(p["template"])} if p.get("root_mode") == "gen" else {}
+        yields, end, o = [], "stop", 0
+        for n in p["lens"]:
+            raw = lib.RawPacketData(bv.SymBytes(stream.items[o:o + n]))
+            o += n
+            try:
+                yields.append(self.defn.parse_ccsds_packet(lib.packets.CCSDSPacket(raw_data=raw), **kw))
+            except Exception as e:   # noqa: BLE001 - library outcome
+                if type(e).__name__ == "UnrecognizedPacketTypeError":
+                    yields.append(e)
+                    continue
+                end = "exc:" + type(e).__name__
+                break
         return yields, end
 
     def extra(self, ctx, stream, pk, yields, index_of):
@@ -135,6 +161,8 @@ class E2E(Harness):
         flags = ctx.choose("flags", len(p.get("flagsets", [0, 1, 2, 3])))
         flags = p.get("flagsets", [0, 1, 2, 3])[flags]
         parse_bad, yield_unrec = bool(flags & 1), bool(flags & 2)
+        if p.get("via") == "direct":
+            parse_bad, yield_unrec = True, True        # a direct call returns every parsed packet and raises for an unrecognized one
         stream, pk = self.build_stream(lens)
         yields, end = self.collect(ctx, stream, parse_bad, yield_unrec, len(lens))
         n_warn = sum(1 for (_, m) in ctx.warnings if m.startswith(LEN_WARN))
@@ -237,7 +265,7 @@ class E2E(Harness):
             obl.append(("generator ends normally", end == "stop"))
         if spec_end == "exc":
             obl.append(("nothing yielded after the failing packet", k == len(yields)))
-        if warn_exact and spec_end == "stop":
+        if warn_exact and spec_end == "stop" and p.get("via") != "direct":        # (the length warning is the generator's)
             obl.append(("one length warning per mismatched packet", n_warn == exp_warn))
         for y, i in zip(yields, idx):
             if isinstance(y, Exception):
@@ -332,27 +360,49 @@ def make(job):
     lib = bv.install(width)
     h = (Twin if job["h"] == "twin" else E2E)(job)
     h.lib = lib
-    h.defn = bv.symbolize_definition(lib.definitions.XtcePacketDefinition.from_xtce(io.BytesIO(xml)))
-    h.spec = specxtce.Spec(xml)
+    h.defn = bv.symbolize_definition(load_defn(lib.definitions, xml, p))
+    h.spec = specxtce.Spec(xml, root=templates.root_of(p["template"]))
     return h
 
 
+def source_kwargs(p):
+    """non-default framing options of a job: record prefix length and, for a file source, the read size"""
+    kw = {}
+    if p.get("skip"):
+        kw["skip_header_bytes"] = p["skip"]
+    if p.get("source") == "file" and p.get("read") is not None:
+        kw["buffer_read_size_bytes"] = p["read"]
+    return kw
+
+
+def load_defn(definitions, xml, p):
+    """from_xtce with the root container named at load time ("load") or left to the generator call ("gen")"""
+    if templates.root_of(p["template"]) != "CCSDSPacket" and p.get("root_mode") != "gen":
+        return definitions.XtcePacketDefinition.from_xtce(io.BytesIO(xml), root_container_name=templates.root_of(p["template"]))
+    return definitions.XtcePacketDefinition.from_xtce(io.BytesIO(xml))
+
+
 # ------------------------------------------------------------------------------------------------- concrete side
-def run_real(xml, stream, parse_bad, yield_unrec, limit, runner=None):
+def run_real(xml, stream, parse_bad, yield_unrec, limit, runner=None, p=None):
     """runner(xml, stream) -> (items, end): observe the items through another entry point than the definition's generator"""
     import warnings
     from space_packet_parser.xtce import definitions
     from spv.obs import enc_concrete
-    d = definitions.XtcePacketDefinition.from_xtce(io.BytesIO(xml))
+    p = p or {"template": ""}
+    d = load_defn(definitions, xml, p)
+    kw = {"root_container_name": templates.root_of(p["template"])} if p.get("root_mode") == "gen" else {}
     from spv import structural
     snap0 = structural.public_state(d)
     # input packets (for index mapping)
-    pk, o = [], 0
-    while o + 6 <= len(stream):
+    pk, o, skip = [], 0, p.get("skip", 0)
+    while o + skip + 6 <= len(stream):
+        o += skip
         n = 7 + int.from_bytes(stream[o + 4:o + 6], "big")
         pk.append(stream[o:o + n])
         o += n
     ys, end = [], "stop"
+    kw.update(source_kwargs(p))
+    src = io.BytesIO(stream) if p.get("source") == "file" else stream
 
     def items_of(pkt):
         out = []
@@ -374,8 +424,17 @@ def run_real(xml, stream, parse_bad, yield_unrec, limit, runner=None):
         try:
             if runner is not None:
                 ys, end = runner(xml, stream)
+            elif p.get("via") == "direct":
+                from space_packet_parser import packets as _P
+                for raw in pk:
+                    try:
+                        ys.append(d.parse_ccsds_packet(_P.CCSDSPacket(raw_data=_P.RawPacketData(raw)), **kw))
+                    except Exception as e:   # noqa: BLE001
+                        if type(e).__name__ != "UnrecognizedPacketTypeError":
+                            raise
+                        ys.append(e)
             else:
-                for y in d.packet_generator(stream, parse_bad_pkts=parse_bad, yield_unrecognized_packet_errors=yield_unrec):
+                for y in d.packet_generator(src, parse_bad_pkts=parse_bad, yield_unrecognized_packet_errors=yield_unrec, **kw):
                     ys.append(y)
                     if len(ys) > limit + 1:
                         end = "extra"
@@ -403,7 +462,7 @@ def run_real(xml, stream, parse_bad, yield_unrec, limit, runner=None):
 def concrete(req):
     i = req["input"]
     xml, _, _ = templates.get(i["template"])
-    return run_real(xml, bytes.fromhex(i["stream"]["hex"]), i["parse_bad"], i["yield_unrec"], len(i["lens"]))
+    return run_real(xml, bytes.fromhex(i["stream"]["hex"]), i["parse_bad"], i["yield_unrec"], len(i["lens"]), p=dict(req.get("params") or {}, template=i["template"]))
 
 
 def _item_diff(exp, got, where):
@@ -434,7 +493,10 @@ def judge(req, got):
     inp = req["input"]
     if got.get("definition_changed") and req.get("check_definition_unchanged"):
         return "reproduced", f"parsing the stream {inp['stream']['hex']} (template {inp['template']}) modified the definition (its XML or a public attribute)"
-    head = f"template {inp['template']} stream {inp['stream']['hex']} parse_bad_pkts={inp['parse_bad']} yield_unrecognized={inp['yield_unrec']}"
+    via = (req.get("params") or {})
+    via = (" (parse_ccsds_packet called directly)" if via.get("via") == "direct" else "") + (" (root container named in the generator call)" if via.get("root_mode") == "gen" else "") + \
+        (f" (file source, buffer_read_size_bytes={via.get('read')})" if via.get("source") == "file" else "") + (f" (skip_header_bytes={via.get('skip')})" if via.get("skip") else "")
+    head = f"template {inp['template']}{via} stream {inp['stream']['hex']} parse_bad_pkts={inp['parse_bad']} yield_unrecognized={inp['yield_unrec']}"
     gy = list(got["yields"])
     k = 0
     for sy in spec["yields"]:
